@@ -29,10 +29,17 @@ type c11Case struct {
 	Exclude []string     `json:"exclude,omitempty"`
 	Follow  []string     `json:"follow,omitempty"`
 	Under   string       `json:"under"` // disk | filter | map | subdir | mem
+	// Reset: the view is wrapped once with the exported WithHardlinkReset and that one value is walked and
+	// then transferred twice (a retry, or one context sent to two receivers)
+	Reset bool `json:"reset,omitempty"`
 }
 
 func (c c11Case) String() string {
-	return fmt.Sprintf("tree=%s include=%q exclude=%q follow=%q under=%s", c.Tree, c.Include, c.Exclude, c.Follow, c.Under)
+	s := fmt.Sprintf("tree=%s include=%q exclude=%q follow=%q under=%s", c.Tree, c.Include, c.Exclude, c.Follow, c.Under)
+	if c.Reset {
+		s += " reset+reuse"
+	}
+	return s
 }
 
 // buildView constructs the filtered view of the case; it returns the view and the
@@ -117,6 +124,9 @@ func judgeC11(c c11Case) (string, string) {
 	if err != nil {
 		return "view-failed", err.Error()
 	}
+	if c.Reset {
+		view = fsutil.WithHardlinkReset(view)
+	}
 	// what the view reports
 	type ent struct {
 		path string
@@ -138,8 +148,10 @@ func judgeC11(c c11Case) (string, string) {
 		return "walk-failed", err.Error()
 	}
 	inView := map[string]bool{}
+	var listedPaths []string
 	for _, e := range listed {
 		inView[e.path] = true
+		listedPaths = append(listedPaths, e.path)
 	}
 	// (3) walk/open agreement
 	pre := ""
@@ -175,6 +187,27 @@ func judgeC11(c c11Case) (string, string) {
 		}
 	}
 	// (1)+(2) transfer the view
+	rounds := 1
+	if c.Reset {
+		rounds = 2
+	}
+	for round := 1; round <= rounds; round++ {
+		if round > 1 {
+			os.RemoveAll(dst)
+			os.Mkdir(dst, 0755)
+		}
+		if k, m := c11Transfer(c, view, dst, pre, listedPaths); k != "" {
+			if round > 1 {
+				return "reuse-" + k, fmt.Sprintf("transfer #%d of the same view value: %s", round, m)
+			}
+			return k, m
+		}
+	}
+	return "", ""
+}
+
+// c11Transfer sends the view into dst and judges the stream and the destination.
+func c11Transfer(c c11Case, view fsutil.FS, dst, pre string, listed []string) (string, string) {
 	res := xfer.Run(view, dst, fsutil.ReceiveOpt{}, nil)
 	if res.TimedOut {
 		return "timeout", "transfer timed out"
@@ -194,18 +227,18 @@ func judgeC11(c c11Case) (string, string) {
 	}
 	// expected destination: the listed entries, hard-link groups restricted to listed members
 	var want fsmodel.Tree
-	for _, e := range listed {
-		rel := strings.TrimPrefix(e.path, pre)
+	for _, path := range listed {
+		rel := strings.TrimPrefix(path, pre)
 		var n fsmodel.Node
-		if pre != "" && e.path == "s" {
+		if pre != "" && path == "s" {
 			n = fsmodel.Node{Path: "s", Kind: fsmodel.Dir, Perm: 0755}
 		} else {
 			sn := c.Tree.Find(rel)
 			if sn == nil {
-				return "walk-reports-unknown-path", e.path
+				return "walk-reports-unknown-path", path
 			}
 			n = *sn
-			n.Path = e.path
+			n.Path = path
 		}
 		want = append(want, n)
 	}
@@ -295,6 +328,14 @@ func runC11(r *evid.Run) {
 			for _, in := range patternLists(1, c11Patterns) {
 				for _, ex := range patternLists(1, c11Patterns) {
 					cases = append(cases, c11Case{Tree: tf, Include: in, Exclude: ex, Under: under})
+				}
+			}
+		}
+		// the view behind one exported hard-link reset layer, used three times
+		for _, under := range []string{"disk", "filter", "map", "mem", "wrapped"} {
+			for _, in := range patternLists(1, c11Patterns) {
+				for _, ex := range patternLists(1, c11Patterns) {
+					cases = append(cases, c11Case{Tree: t, Include: in, Exclude: ex, Under: under, Reset: true})
 				}
 			}
 		}
